@@ -68,6 +68,30 @@ class Closure:
         return f"<closure {getattr(self.node, 'name', 'lambda')}>"
 
 
+class RecordType:
+    """A NamedTuple class of the followed module: calling it builds a Record."""
+
+    def __init__(self, name, fields, defaults):
+        self.name, self.fields, self.defaults = name, list(fields), dict(defaults)
+
+    def __repr__(self):
+        return f"<record type {self.name}>"
+
+
+class Record:
+    def __init__(self, rtype: RecordType, values: Dict[str, Any]):
+        self.rtype, self.values = rtype, values
+
+    def __repr__(self):
+        return f"{self.rtype.name}({', '.join(f'{k}={render(v)}' for k, v in self.values.items())})"
+
+    def __iter__(self):
+        return iter(self.values.values())
+
+    def __len__(self):
+        return len(self.values)
+
+
 class GenValue:
     """A generator of the followed program: its body runs in the model only as far as the consumer asks (lazily, like the real
     one), on a helper thread that is never running at the same time as the consumer."""
@@ -129,7 +153,7 @@ class Undecidable(AnalysisError):
 def render(v) -> str:
     if isinstance(v, Opaque):
         return v.text
-    if isinstance(v, Closure):
+    if isinstance(v, (Closure, Record, RecordType)):
         return repr(v)
     if isinstance(v, tuple):
         return "(" + ", ".join(render(x) for x in v) + ("," if len(v) == 1 else "") + ")"
@@ -160,6 +184,10 @@ class Machine:
                 return self.env[e.id]
             return Opaque(e.id)
         if isinstance(e, ast.Attribute):
+            if not isinstance(e.value, ast.Name) or isinstance(self.env.get(e.value.id), Record):
+                b0 = self.ev(e.value) if isinstance(e.value, ast.Name) else None
+                if isinstance(b0, Record) and e.attr in b0.values:
+                    return b0.values[e.attr]
             chain = e
             while isinstance(chain, ast.Attribute):
                 chain = chain.value
@@ -168,6 +196,8 @@ class Machine:
                 if v is not NotImplemented:
                     return v
             base = self.ev(e.value)
+            if isinstance(base, Record) and e.attr in base.values:
+                return base.values[e.attr]
             if isinstance(base, Opaque):
                 text = f"{base.text}.{e.attr}"
                 v = self.attrs(text)
@@ -248,6 +278,8 @@ class Machine:
             idx = self.ev(e.slice) if not isinstance(e.slice, ast.Slice) else None
             if isinstance(base, dict) and idx in base:
                 return base[idx]
+            if isinstance(base, Record) and isinstance(idx, int) and -len(base) <= idx < len(base):
+                return list(base.values.values())[idx]
             if isinstance(base, str) and isinstance(idx, int) and -len(base) <= idx < len(base):
                 return base[idx]
             if isinstance(base, (tuple, list)) and isinstance(idx, int) and -len(base) <= idx < len(base):
@@ -390,6 +422,10 @@ class Machine:
         for a in e.args:
             if isinstance(a, ast.Starred):
                 v = self.ev(a.value)
+                if isinstance(v, Record):
+                    v = list(v.values.values())
+                if isinstance(v, GenValue):
+                    v = list(v)
                 if not isinstance(v, (tuple, list)):
                     raise Undecidable(f"*{ast.unparse(a.value)} is not a sequence in the model")
                 args.extend(v)
@@ -483,7 +519,28 @@ class Machine:
             raise Raised(val)
         return val
 
+    def make_record(self, rt: RecordType, args, kwargs):
+        vals = dict(zip(rt.fields, args))
+        for k, v in kwargs.items():
+            if k not in rt.fields or k in vals:
+                raise Raised("TypeError")
+            vals[k] = v
+        for f_ in rt.fields:
+            if f_ not in vals:
+                if f_ not in rt.defaults:
+                    raise Raised("TypeError")
+                vals[f_] = self.ev(rt.defaults[f_])
+        return Record(rt, {f_: vals[f_] for f_ in rt.fields})
+
     def call(self, e: ast.Call):
+        if isinstance(e.func, ast.Name) and isinstance(self.env.get(e.func.id), RecordType):
+            args_, kwargs_ = self.arguments(e)
+            return self.make_record(self.env[e.func.id], args_, kwargs_)
+        if isinstance(e.func, ast.Attribute) and e.func.attr == "_replace":
+            base_ = self.ev(e.func.value)
+            if isinstance(base_, Record):
+                args_, kwargs_ = self.arguments(e)
+                return Record(base_.rtype, dict(base_.values, **kwargs_))
         if isinstance(e.func, (ast.Name, ast.Subscript)) or (isinstance(e.func, ast.Call) and isinstance(e.func.func, ast.Attribute)
                                                               and e.func.func.attr == "get"):
             fv = self.ev(e.func)
@@ -525,6 +582,18 @@ class Machine:
             v = args[0] if args else []
             if isinstance(v, (list, tuple, dict, set, frozenset)) and all(not isinstance(x, (Opaque, list, dict)) or isinstance(x, Opaque) for x in v):
                 return frozenset(v)
+        if name == "map" and len(args) >= 2 and all(isinstance(x, (list, tuple)) for x in args[1:]):
+            fn_ = args[0]
+            out_ = []
+            for items in zip(*args[1:]):
+                if isinstance(fn_, Closure):
+                    out_.append(self.invoke(fn_, list(items), {}))
+                elif isinstance(fn_, Opaque):
+                    r_ = self.call_hook(self, e, fn_.text, list(items), {})
+                    out_.append(Opaque(f"{fn_.text}({', '.join(render(x) for x in items)})", ("call", fn_.text, list(items), {}, None)) if r_ is NotImplemented else r_)
+                else:
+                    raise Undecidable(f"map over {fn_!r}")
+            return out_
         if name in ("all", "any") and len(args) == 1 and isinstance(args[0], (list, tuple)):
             vals = [self.truth(x, e) for x in args[0]]
             return all(vals) if name == "all" else any(vals)
@@ -589,6 +658,8 @@ class Machine:
         if isinstance(t, ast.Name):
             self.env[t.id] = v
         elif isinstance(t, (ast.Tuple, ast.List)):
+            if isinstance(v, Record):
+                v = list(v.values.values())
             stars = [i for i, x in enumerate(t.elts) if isinstance(x, ast.Starred)]
             if isinstance(v, (tuple, list)) and len(v) == len(t.elts) and not stars:
                 for tt, vv in zip(t.elts, v):
@@ -680,6 +751,8 @@ class Machine:
                 seq = list(it)
             elif isinstance(it, GenValue):
                 seq = it
+            elif isinstance(it, Record):
+                seq = list(it.values.values())
             else:
                 seq = self.iterate(it, st.iter)
             broke = False
@@ -770,6 +843,9 @@ def module_constants(tree: ast.Module) -> Dict[str, Any]:
                 continue
             m.env[st.targets[0].id] = v
             out[st.targets[0].id] = v
+        if isinstance(st, ast.ClassDef) and any("NamedTuple" in ast.unparse(b) for b in st.bases):
+            flds = [x for x in st.body if isinstance(x, ast.AnnAssign) and isinstance(x.target, ast.Name)]
+            out[st.name] = RecordType(st.name, [x.target.id for x in flds], {x.target.id: x.value for x in flds if x.value is not None})
         # private module-level helpers are followed when they are called (or stored in a table and called through it)
         if isinstance(st, ast.FunctionDef) and st.name.startswith("_") and not st.decorator_list:
             out[st.name] = Closure(st, None)
